@@ -1,0 +1,7 @@
+//go:build !verif
+
+package common
+
+// VerifPoint marks a schedule point for the external verification harness (/verif). Without the build
+// tag "verif" it is an empty function that the compiler inlines away.
+func VerifPoint(name string) {}
